@@ -165,6 +165,10 @@ class Runner:
                     k -= 1
                     if k <= 0:
                         break
+        elif o == "c":
+            # the client goes on with a shallow copy of the schedule (copy.copy shares the suspended generator: the stream continues)
+            import copy
+            self.s = copy.copy(s)
         elif o[0] == "b":
             # a `for` loop over the schedule that is left with break after k actions (wherever that is)
             k = int(o[1:])
